@@ -470,31 +470,33 @@ structure Rel (b : Option Addr) (s s' : St) : Prop where
   lost : ∀ q, (s'.obj q).lost = (s.obj q).lost
   closing : ∀ q, (s.obj q).closing = true → (s'.obj q).closing = true
   last : ∀ q, (s'.obj q).last = (s.obj q).last ∨ (s'.obj q).last = s.now
+  verified : ∀ q, (s.obj q).verified = true → (s'.obj q).verified = true
   topics : ∀ a x, some a ≠ b → memT (s'.topics x) a = true → memT (s.topics x) a = true
   prepared : ∀ a, some a ≠ b → s.prepared a = none → s'.prepared a = none
 
 theorem Rel.refl (b : Option Addr) (s : St) : Rel b s s :=
-  ⟨rfl, rfl, fun _ => rfl, fun _ => rfl, fun _ h => h, fun _ => Or.inl rfl, fun _ _ _ h => h, fun _ _ h => h⟩
+  ⟨rfl, rfl, fun _ => rfl, fun _ => rfl, fun _ h => h, fun _ => Or.inl rfl, fun _ h => h, fun _ _ _ h => h, fun _ _ h => h⟩
 
 theorem Rel.trans {b : Option Addr} {s s1 s2 : St} (h1 : Rel b s s1) (h2 : Rel b s1 s2) : Rel b s s2 := by
-  obtain ⟨a1, a0, a2, a3, a4, a7, a5, a6⟩ := h1
-  obtain ⟨b1, b0, b2, b3, b4, b7, b5, b6⟩ := h2
+  obtain ⟨a1, a0, a2, a3, a4, a7, a8, a5, a6⟩ := h1
+  obtain ⟨b1, b0, b2, b3, b4, b7, b8, b5, b6⟩ := h2
   constructor <;> grind
 
 theorem Rel.weaken {b : Option Addr} {s s' : St} (h : Rel none s s') : Rel b s s' := by
-  obtain ⟨a1, a0, a2, a3, a4, a7, a5, a6⟩ := h
-  refine ⟨a1, a0, a2, a3, a4, a7, ?_, ?_⟩
+  obtain ⟨a1, a0, a2, a3, a4, a7, a8, a5, a6⟩ := h
+  refine ⟨a1, a0, a2, a3, a4, a7, a8, ?_, ?_⟩
   · intro a x _ hm; exact a5 a x (by simp) hm
   · intro a _ hp; exact a6 a (by simp) hp
 
 theorem rel_updObj (s : St) (p : ObjId) (o' : Obj) (e1 : o'.addr = (s.obj p).addr) (e2 : o'.lost = (s.obj p).lost)
-    (e3 : (s.obj p).closing = true → o'.closing = true) (e4 : o'.last = (s.obj p).last ∨ o'.last = s.now) :
+    (e3 : (s.obj p).closing = true → o'.closing = true) (e4 : o'.last = (s.obj p).last ∨ o'.last = s.now)
+    (e5 : (s.obj p).verified = true → o'.verified = true := by exact fun h => h) :
     Rel none s { s with obj := upd s.obj p o' } := by
   constructor <;> simp only [upd_apply] <;> grind
 
 theorem rel_closeP (c : Cfg) (s : St) (p : ObjId) : Rel none s (closeP c s p).1 := by
   simp only [closeP]
-  constructor <;> simp only [upd_apply] <;> grind [closeO_addr, closeO_lost, closeO_closing, closeO_last]
+  constructor <;> simp only [upd_apply] <;> grind [closeO_addr, closeO_lost, closeO_closing, closeO_last, closeO_verified]
 
 theorem rel_sendEvents (s : St) (p : ObjId) : Rel none s (sendEvents s p).1 := by
   simp only [sendEvents]
@@ -508,7 +510,7 @@ theorem rel_respond (s : St) (p : ObjId) (code : Nat) (b : Body) : Rel none s (r
   rel_updObj s p _ rfl rfl (fun h => h) (Or.inr rfl)
 
 theorem rel_setValue (s : St) (f : Cid → Option Val) : Rel none s { s with value := f } :=
-  ⟨rfl, rfl, fun _ => rfl, fun _ => rfl, fun _ h => h, fun _ => Or.inl rfl, fun _ _ _ h => h, fun _ _ h => h⟩
+  ⟨rfl, rfl, fun _ => rfl, fun _ => rfl, fun _ h => h, fun _ => Or.inl rfl, fun _ h => h, fun _ _ _ h => h, fun _ _ h => h⟩
 
 theorem rel_publish (c : Cfg) (s : St) (x : Cid) (v : Val) (sd : Option Addr) : Rel none s (publish c s x v sd) := by
   simp only [publish]
@@ -517,7 +519,8 @@ theorem rel_publish (c : Cfg) (s : St) (x : Cid) (v : Val) (sd : Option Addr) : 
   · split
     · exact Rel.refl _ _
     · rename_i subs hs _
-      refine ⟨rfl, rfl, fun q => by simp, fun q => by simp, fun q h => by simpa using h, fun q => by simp, ?_, fun _ _ h => h⟩
+      refine ⟨rfl, rfl, fun q => by simp, fun q => by simp, fun q h => by simpa using h, fun q => by simp,
+        fun q h => by simpa using h, ?_, fun _ _ h => h⟩
       intro a y _ hm
       simp only [upd_apply] at hm
       split at hm
@@ -552,7 +555,7 @@ theorem rel_putSub (s : St) (p : ObjId) (x : Cid) (ev : Option Bool) : Rel (some
   simp only [putSub]
   split
   · exact Rel.refl _ _
-  · refine ⟨rfl, rfl, fun _ => rfl, fun _ => rfl, fun _ h => h, fun _ => Or.inl rfl, ?_, fun _ _ h => h⟩
+  · refine ⟨rfl, rfl, fun _ => rfl, fun _ => rfl, fun _ h => h, fun _ => Or.inl rfl, fun _ h => h, ?_, fun _ _ h => h⟩
     intro a y ha hm
     simp only [upd_apply] at hm
     split at hm
@@ -561,7 +564,8 @@ theorem rel_putSub (s : St) (p : ObjId) (x : Cid) (ev : Option Bool) : Rel (some
       have : a ≠ (s.obj p).addr := fun e => ha (by rw [e])
       simpa [this] using hm
     · exact hm
-  · refine ⟨rfl, rfl, fun q => ?_, fun q => ?_, fun q h => ?_, fun q => ?_, ?_, fun _ _ h => h⟩
+  · refine ⟨rfl, rfl, fun q => ?_, fun q => ?_, fun q h => ?_, fun q => ?_, fun q h => ?_, ?_, fun _ _ h => h⟩
+    · simp only [upd_apply]; split <;> simp_all
     · simp only [upd_apply]; split <;> simp_all
     · simp only [upd_apply]; split <;> simp_all
     · simp only [upd_apply]; split <;> simp_all
@@ -586,18 +590,23 @@ theorem rel_putChars (c : Cfg) (s : St) (p : ObjId) (x : Cid) (ev : Option Bool)
   · exact rel_putSub s p x ev
   · exact Rel.trans (rel_putSub s p x ev) (Rel.weaken (rel_putVal c _ p x _))
 
-theorem rel_onPut (c : Cfg) (s : St) (p : ObjId) (x ev val cl) : Rel (some (s.obj p).addr) s (onPut c s p x ev val cl).1 := by
+/-- the address a request on `p` may add subscriptions / prepared writes for: its own, and only
+    when it holds a verified session -/
+def vtgt (s : St) (p : ObjId) : Option Addr := if (s.obj p).verified then some (s.obj p).addr else none
+
+theorem rel_onPut (c : Cfg) (s : St) (p : ObjId) (x ev val cl) : Rel (vtgt s p) s (onPut c s p x ev val cl).1 := by
   simp only [onPut]
-  have hr : Rel (some (s.obj p).addr) s (if (s.obj p).verified then respond (putChars c s p x ev val) p 204 Body.none
+  have hr : Rel (vtgt s p) s (if (s.obj p).verified then respond (putChars c s p x ev val) p 204 Body.none
            else respond s p 401 Body.none).1 := by
     split
-    · exact Rel.trans (rel_putChars c s p x ev val) (Rel.weaken (rel_respond _ _ _ _))
+    · rename_i hv; simp only [vtgt, hv, if_true]
+      exact Rel.trans (rel_putChars c s p x ev val) (Rel.weaken (rel_respond _ _ _ _))
     · exact Rel.weaken (rel_respond _ _ _ _)
   split
   · exact Rel.trans hr (Rel.weaken (rel_closeP c _ p))
   · exact hr
 
-theorem rel_onReq (c : Cfg) (s : St) (p : ObjId) (r : Req) : Rel (some (s.obj p).addr) s (onReq c s p r).1 := by
+theorem rel_onReq (c : Cfg) (s : St) (p : ObjId) (r : Req) : Rel (vtgt s p) s (onReq c s p r).1 := by
   simp only [onReq]
   split
   · exact Rel.weaken (rel_closeP c s p)
@@ -609,8 +618,9 @@ theorem rel_onReq (c : Cfg) (s : St) (p : ObjId) (r : Req) : Rel (some (s.obj p)
       · exact Rel.weaken (rel_respond _ _ _ _)
       · exact Rel.weaken (rel_respond _ _ _ _)
     · split
-      · refine Rel.trans ?_ (Rel.weaken (rel_respond _ _ _ _))
-        refine ⟨rfl, rfl, fun _ => rfl, fun _ => rfl, fun _ h => h, fun _ => Or.inl rfl, fun _ _ _ h => h, ?_⟩
+      · rename_i hv; simp only [vtgt, hv, if_true]
+        refine Rel.trans ?_ (Rel.weaken (rel_respond _ _ _ _))
+        refine ⟨rfl, rfl, fun _ => rfl, fun _ => rfl, fun _ h => h, fun _ => Or.inl rfl, fun _ h => h, fun _ _ _ h => h, ?_⟩
         intro a ha hp
         simp only [upd_apply]; split
         · rename_i e; exact absurd (by rw [e]) ha
@@ -618,18 +628,18 @@ theorem rel_onReq (c : Cfg) (s : St) (p : ObjId) (r : Req) : Rel (some (s.obj p)
       · exact Rel.weaken (rel_respond _ _ _ _)
     · exact Rel.weaken (rel_updObj s p _ rfl rfl (fun h => h) (Or.inl rfl))
 
-theorem rel_onData (c : Cfg) (s : St) (p : ObjId) (r : Req) : Rel (some (s.obj p).addr) s (onData c s p r).1 := by
+theorem rel_onData (c : Cfg) (s : St) (p : ObjId) (r : Req) : Rel (vtgt s p) s (onData c s p r).1 := by
   simp only [onData]
-  have h1 : Rel (some (s.obj p).addr) s (touch s p) := Rel.weaken (rel_updObj s p _ rfl rfl (fun h => h) (Or.inr rfl))
+  have h1 : Rel (vtgt s p) s (touch s p) := Rel.weaken (rel_updObj s p _ rfl rfl (fun h => h) (Or.inr rfl))
   have h2 := rel_onReq c (touch s p) p r
-  have e : ((touch s p).obj p).addr = (s.obj p).addr := h1.addr p
+  have e : vtgt (touch s p) p = vtgt s p := by simp [vtgt, touch]
   rw [e] at h2
   exact Rel.trans h1 h2
 
 
 /-- the address a step may add subscriptions / prepared writes for -/
 def tgt (s : St) : Ev → Option Addr
-  | .data p _ => some (s.obj p).addr
+  | .data p _ => vtgt s p
   | _ => none
 
 theorem rel_step (c : Cfg) (s : St) (e : Ev) (h1 : ∀ a, e ≠ Ev.connect a) (h2 : ∀ p, e ≠ Ev.lose p)
@@ -640,7 +650,7 @@ theorem rel_step (c : Cfg) (s : St) (e : Ev) (h1 : ∀ a, e ≠ Ev.connect a) (h
   | connect a => exact absurd rfl (h1 a)
   | verify p =>
     simp only [step]; split
-    · exact rel_updObj s p _ rfl rfl (fun h => h) (Or.inl rfl)
+    · exact rel_updObj s p _ rfl rfl (fun h => h) (Or.inl rfl) (fun _ => rfl)
     · exact Rel.refl _ _
   | data p r =>
     simp only [step, tgt]; split
@@ -668,22 +678,28 @@ theorem rel_step (c : Cfg) (s : St) (e : Ev) (h1 : ∀ a, e ≠ Ev.connect a) (h
   | lose p => exact absurd rfl (h2 p)
   | idleSweep =>
     simp only [step]
-    refine ⟨rfl, rfl, fun q => ?_, fun q => ?_, fun q h => ?_, fun q => ?_, fun _ _ _ h => h, fun _ _ h => h⟩
+    refine ⟨rfl, rfl, fun q => ?_, fun q => ?_, fun q h => ?_, fun q => ?_, fun q h => ?_, fun _ _ _ h => h, fun _ _ h => h⟩
     · simp only; split <;> simp
     · simp only; split <;> simp
     · simp only; split
       · simp
       · exact h
     · simp only; split <;> simp
+    · simp only; split
+      · simpa using h
+      · exact h
   | stop =>
     simp only [step]
-    refine ⟨rfl, rfl, fun q => ?_, fun q => ?_, fun q h => ?_, fun q => ?_, fun _ _ _ h => h, fun _ _ h => h⟩
+    refine ⟨rfl, rfl, fun q => ?_, fun q => ?_, fun q h => ?_, fun q => ?_, fun q h => ?_, fun _ _ _ h => h, fun _ _ h => h⟩
     · simp only; split <;> simp
     · simp only; split <;> simp
     · simp only; split
       · simp
       · exact h
     · simp only; split <;> simp
+    · simp only; split
+      · simpa using h
+      · exact h
 
 /-- nothing is held for an address all of whose connections have been lost -/
 def CleanInv (s : St) : Prop :=
@@ -748,7 +764,9 @@ theorem cleanInv_step (c : Cfg) (s : St) (e : Ev) (hA : InvA s) (h : CleanInv s)
         intro he
         cases e with
         | data p r =>
-          simp only [tgt] at he
+          simp only [tgt, vtgt] at he
+          split at he
+          case isFalse => cases he
           have hen : p < s.nobj ∧ (s.obj p).closing = false := by
             apply Classical.byContradiction; intro hen; exact hdis ⟨p, r, rfl, hen⟩
           have hpl : (s.obj p).lost = true := hal' p hen.1 (by injection he with he; exact he.symm)
